@@ -138,13 +138,13 @@ def build_tokens(sf, shape, serial, variant, port_id, wf_id):
     vals = W.json_values()
     order = [n for n in ("s", "x", "a", "b", "o") if n in shape["kind"]]
     for i, n in enumerate(order):
-        tag = "0.%d.%d" % (serial, i)
+        tag = "0.77.%d.%d" % (serial, i)        # identifies the entity in add_token and in the row count: no other part uses 0.77.*
         members = list(shape["reads"][n])
         if shape["kind"][n] == "Token":
             if n == "s":
                 obj = Token(value=vals[(serial + 3) % len(vals)], tag=tag, recoverable=bool((variant + serial) % 2))
             else:
-                obj = Token(value={"all": vals, "i": serial}, tag=tag, recoverable=bool((variant + serial + 1) % 2))
+                obj = Token(value={"k": [vals[serial % len(vals)], serial], "e": {}}, tag=tag, recoverable=bool((variant + serial + 1) % 2))
             b.add(n, obj, "token", tag)
             continue
         kind = role[n]
